@@ -205,6 +205,10 @@ func (b Buffer) RedactableBytes() (r m.RedactableBytes)
   ensures [C13] kept(b.buf)
   ensures [C03] LS(r, len(r))
 
+func (b Buffer) String() (r string)
+  modifies mem(b.buf), rxre, rxsrc, rxsrcl, rxrepl, rxrepll, rxres, rxresl
+  ensures [C13] kept(b.buf)
+
 func (b Buffer) RedactableString() (r m.RedactableString)
   modifies mem(b.buf)
   ensures [C01] WF(r, len(r), false)
